@@ -953,59 +953,11 @@ def _tick(ck, name, t0):
     return time.time()
 
 
-MY_LEAN = ("SpsdkVerif.Properties.XC14", "SpsdkVerif.Proofs.BimgDelimit", "SpsdkVerif.Proofs.BimgParse", "SpsdkVerif.Proofs.BimgExport",
-           "SpsdkVerif.Proofs.BimgAny", "SpsdkVerif.Model.Bimg", "SpsdkVerif.Model.BimgSpec", "SpsdkVerif.Generated.BimgTables")
-
-
-def cross_model_obligations(ck):
-    """Properties/XC14.lean (Delimit discharged from the C01 / C07 / C05 models) imports other properties' proof files.  It is
-    built and audited here, apart from Properties/C14.lean: a failure located in C14's own files breaks the check, a failure
-    located in a foreign module (its owner's work in progress) is recorded as 'blocked' and does not."""
-    import vcore
-    mod = "SpsdkVerif.Properties.XC14"
-    path = vcore.LEAN / "SpsdkVerif" / "Properties" / "XC14.lean"
-    names = vcore.theorem_names(path)
-    rc, out = ck._lake([mod])
-    status, detail, axioms = "discharged", "", {}
-    mine = lambda m: m in MY_LEAN
-    if rc != 0:
-        # the module's only own files outside Properties/C14.lean's closure are the two thin composition files; they stop building when a
-        # foreign statement they compose with is changed by its owner -> blocked (needs a re-sync), never a verdict about C14
-        errs = re.findall(r"error: ([^\s:]+\.lean):(\d+)", out)
-        status, detail = "blocked", f"does not build against the current foreign models: {sorted({e[0] for e in errs})[:3] or out[-200:]}"
-    else:
-        bad_own, bad_foreign = [], []
-        for m in vcore.lean_imports_closure(mod):
-            src = (vcore.LEAN / (m.replace(".", "/") + ".lean")).read_text(encoding="utf-8")
-            for i, line in enumerate(vcore.strip_lean_comments(src).splitlines(), 1):
-                if vcore.FORBIDDEN.search(line):
-                    (bad_own if mine(m) else bad_foreign).append(f"{m}:{i}")
-        audit = vcore.LEAN / "SpsdkVerif" / "Audit" / "XC14.lean"
-        txt = f"-- GENERATED by harness/props/C14.py: axiom audit of Properties/XC14.lean\nimport {mod}\n" + "".join(f"#print axioms {n}\n" for n in names)
-        if not audit.exists() or audit.read_text() != txt:
-            audit.write_text(txt)
-        rc2, aout = vcore.sh(["lake", "env", "lean", str(audit.relative_to(vcore.LEAN))], cwd=vcore.LEAN, timeout=vcore.LAKE_TIMEOUT)
-        for m_ in re.finditer(r"'([^']+)' (does not depend on any axioms|depends on axioms: \[([^\]]*)\])", aout):
-            axioms[m_.group(1)] = [] if m_.group(3) is None else [a.strip() for a in m_.group(3).replace("\n", " ").split(",") if a.strip()]
-        bad_ax = [n for n in names if n not in axioms or not set(axioms[n]) <= vcore.ALLOWED_AXIOMS]
-        if bad_own or (rc2 == 0 and bad_ax and not bad_foreign):
-            status, detail = "broken", f"forbidden token / axiom in C14's own module: {bad_own[:3]} {bad_ax[:3]}"
-        elif bad_foreign or rc2 != 0:
-            status, detail = "blocked", f"forbidden token in a foreign module (work in progress of its owner): {bad_foreign[:3]}"
-    for n in names:
-        ck.obligations.append({"name": n, "kind": "cross-model theorem (Properties/XC14.lean)", "discharged": status == "discharged",
-                               "axioms": axioms.get(n), "note": detail})
-    ck.extra["cross_model_obligations"] = {"status": status, "detail": detail, "theorems": names}
-    if status == "broken":
-        ck.broken.append("cross-model obligation no longer checks: " + detail)
-
-
 def setup(ck):
     import time
     logging.disable(logging.CRITICAL)
     t0 = time.time()
     ck.lean_obligations(generated=["BimgTables"])
-    cross_model_obligations(ck)
     drv = ck.driver()
     t0 = _tick(ck, "lean", t0)
     meta = ck.generated_meta.get("BimgTables")
